@@ -57,6 +57,11 @@ CLAIMED = {
          "representatives (exact), real Tempo(unique) vs the reduced-table model, PT-TEMPO(unique) through C02."),
    ref="§4 C06",
    note=TB + "keys compared exactly (code rounds to 12 decimals); mean-field TEMPO shares the backend step, no separate theorem."),
+ "C18": dict(
+   technique="Lean 4 proof over a model regenerated from source (translator) + differential correspondence",
+   text="Operand order of every control composition, the float-time->step expression, the tensor-leg wiring of both superoperator applications and the statement order of the compute_dynamics and PtTebd step loops are regenerated from the source into Lean on every run. Theorems proved for all step counts, control assignments and call histories: each control acts exactly once, at its step, before (pre) or after (post) the recorded state, first and last step included; get_controls is fully characterised, each landing call contributing exactly one factor; same-key stacks and ChainControl stacks act in insertion order; float times act at the round-half-even nearest step with explicit binary64 error bound; identity controls change nothing; PtTebd follows the same pre/post rules per site. The executable model is run against the real Control, ChainControl, compute_dynamics and PtTebd on generated schedules (every step 0..N, pre/post, int/float keys, stacks 1-3, non-trace-preserving maps, 2-3 sites) comparing all recorded states. Insertion order for int- and float-keyed controls on one step does not hold (known finding); the theorem is stack_order_partial.",
+   ref="§4 C18",
+   note=TB + "exact binary64 model without overflow/subnormal/NaN, dt>0; Array-based matrix instance assumed to be matrix multiplication (compared with numpy on every case); PtTebd nn-gate layers/process tensors enter as arbitrary maps (correspondence only without environments, product states); expm propagators shipped to the model as data."),
  "C13": dict(
    technique="Lean 4 proof over a model regenerated from source (translator) + differential correspondence",
    text=("Step-count and label expressions of all APIs are regenerated from the source into Lean on every run; "
